@@ -13,7 +13,7 @@ import urllib.parse
 
 from .. import tlc, graph, common, servers
 
-SEGS_Q = ["", ".", "..", "a.txt", "sub", "..name", "%2e%2e", "index.html", "x.html", "x", "y", "rootx", "secret.txt"]
+SEGS_Q = ["", ".", "..", "a.txt", "sub", "..name", "%2e%2e", "index.html", "x.html", "x", "y", "rootx", "secret.txt", "z", "d2"]
 SEGS_T = SEGS_Q + ["u_e.txt", "deep", "root"]
 # TLC mangles non-ASCII characters in strings: the model uses the ASCII token, the adapter the real name
 REAL = {"u_e.txt": "\u00e9.txt"}
@@ -23,8 +23,9 @@ def real_name(n):
     return REAL.get(n, n)
 
 FILES = ["a.txt", "..name", "x.html", "x", "y.html", "index.html", "u_e.txt", "sub/index.html", "sub/a.txt", "sub/x.html",
-         "sub/deep/a.txt", "sub/..name", "root/a.txt", "sub.html"]
-DIRS = ["sub", "sub/deep", "root"]
+         "sub/deep/a.txt", "sub/..name", "root/a.txt", "sub.html", "%2e%2e/index.html"]
+# (directories named like the Pages candidates: "z.html" with no "z" beside it, "d2/index.html"; a directory literally named "%2e%2e")
+DIRS = ["sub", "sub/deep", "root", "z.html", "d2", "d2/index.html", "%2e%2e"]
 
 
 def world():
@@ -81,7 +82,7 @@ def run(ctx):
     wd = tlc.workdir_for("c07")
     tlc.sany(wd + "/StaticFiles.tla")
     cfg = ["SPECIFICATION Spec", "CHECK_DEADLOCK FALSE", "INVARIANT Confined", "INVARIANT ExactFile", "INVARIANT Complete",
-           "INVARIANT RedirectThenIndex", "INVARIANT NoRedirectLoop"]
+           "INVARIANT RedirectThenIndex", "INVARIANT NoRedirectLoop", "INVARIANT RedirectOnlyDirs"]
     tlc.write_mc(wd, "MC_StaticFiles", "StaticFiles", constants=K, cfg_lines=cfg)
     res = tlc.run_tlc(wd, "MC_StaticFiles", dump=True, heap="8g")
     ctx.add_tlc("StaticFiles", res, {"paths": "all <= %d segments over %d" % (depth, len(segs))})
@@ -162,8 +163,9 @@ def run(ctx):
                         bad = "content of a file outside the directory was served"
                     elif want == "redirect":
                         loc = o["location"]
-                        exp_path = urllib.parse.quote(path.encode("utf-8"), safe="/%") + "/"
-                        if o["status"] != 307 or loc is None or urllib.parse.urlsplit(loc).path not in (exp_path, urllib.parse.quote(path + "/", safe="/#%[]=:;$&()+,!?*@'~")):
+                        # the Location is a URL reference: its path, percent-decoded, must be the requested path plus "/"
+                        loc_path = urllib.parse.unquote(urllib.parse.urlsplit(loc).path) if loc is not None else None
+                        if o["status"] != 307 or loc_path != path + "/":
                             bad = "directory URL without trailing slash: expected a redirect to the same URL plus '/'"
                     elif want["k"] == "file":
                         if o["status"] != 200 or o["body"] != content_of(want["p"]):
